@@ -26,7 +26,7 @@ EXPLANATION = (
     "other values (re)start with that time, start_heartbeat stops first and starts only for a positive time; R5 "
     "Network.disconnect reaches every node's PdoMap.stop; R6 PeriodicMessageTask.update replaces the message data on "
     "every path before either branch, the fallback branch stops before restarting; R7 arguments of the four "
-    "send_periodic calls are the producer's own id, payload and period."
+    "send_periodic calls are the producer's own id, payload and period. R8 no class-level mutable object is mutated in place by instances (each node/client/map/dictionary has its own state)."
 )
 ASSUMPTIONS = [
     "not decided: periods and payload values at run time, python-can's cyclic task behaviour",
@@ -342,3 +342,7 @@ def run(chk):
     chk.saw(ps)
     chk.check(bool([c for c in find_calls(ps.node, ".stop") if dotted(c.func) == "self._task.stop"]), "R6", f"{NET}:PeriodicMessageTask.stop", ps.loc(),
               "stop() does not stop the bus task")
+
+    # ------------------------------------------------------------------ R8 instances are independent (shared clause)
+    from . import shared as _shared
+    _shared.isolation(chk, "R8", rels=['canopen/network.py', 'canopen/nmt.py', 'canopen/sync.py', 'canopen/pdo/base.py'])
